@@ -98,6 +98,8 @@ def correspond(ctx):
         impl.append(call(lambda: AES(key_length=kl, cipher_length=cl, message_length=ml).Decrypt(key, ct), hx))
 
     lens = list(range(0, 81)) + [rng.randint(81, 400) for _ in range(ctx.pick(20, 600))]
+    # long messages around buffer-sized boundaries (a padded length that is an exact multiple of 1 KiB / 4 KiB / 8 KiB)
+    lens += [B - d for B in (1024, 4096, 8192) for d in rng.sample(range(0, 18), ctx.pick(2, 6))] + [4096, 8192 + rng.randint(1, 40)]
     for kl in (16, 24, 32):
         for n in (lens if ctx.thorough or kl == 16 else lens[::3]):
             key, iv, msg = rb(rng, kl), rb(rng, 16), rb(rng, n)
@@ -164,7 +166,8 @@ def oracle(ctx, res):
 
     for kl in (16, 24, 32):
         ske = AESxCBC(key_length=kl)
-        for n in list(range(0, 81)) + [rng.randint(81, 300) for _ in range(ctx.pick(10, 300))]:
+        for n in list(range(0, 81)) + [rng.randint(81, 300) for _ in range(ctx.pick(10, 300))] + \
+                [B - d for B in (1024, 4096, 8192, 65536) for d in range(-1, 18)]:
             key = rb(rng, kl); m = rb(rng, n)
             inp = {"key": key.hex(), "msg": m.hex()}
             try:
